@@ -24,6 +24,7 @@ func TestVerif_C01_RoundTrip(t *testing.T) {
 	rec.Rule("rapid: key d in [1,n-2] (uniform, boundary 1..4 / n-5..n-2, leading zero bytes, shorter-than-32-byte encodings); digest e and nonce stream either uniform or SOLVED (k=s+t*d, e=r-x([k]G)) so that r, s or t=(r+s) mod n has 1..31 leading zero bytes / is tiny / is near n; stream = 0..4 candidates that must be rejected (k>=n, k=0, r=0, r+k=n, s=0) then an acceptable one then trailing bytes; entry pair drawn from {SignHashed/VerifyHashed, SignZa/VerifyZa, Sign/Verify (id 0..64 bytes, msg 0..200)}. Oracle: verify(sign(..)) = (true,nil), no panic in either call, and sm2ref.Verify accepts. Non-trivial: r, s or t has a leading zero byte, or a candidate was rejected, or the key is short/boundary; distinct by (d,e,stream,entry).")
 	t.Cleanup(stats.FlushAll)
 	rapid.Check(t, func(t *rapid.T) {
+		foreignCalls(t, rec, "foreign") // state left behind by other entry points must not matter
 		c := sm2gen.DrawSignCase(t)
 		px, py, _ := sm2gen.Pub(c.D)
 		entry := gen.Pick(t, "entry", "hashed", "hashed", "za", "full")
